@@ -486,7 +486,7 @@ func (x *Interp) signal(fr *frame, st *Stmt) {
 	if class != "nonfatal" {
 		site = fmt.Sprintf("%d/%s@%s", st.Site%numSites, st.Kind, harnessStack())
 		if st.Site%numSites >= 4 {
-			site += fmt.Sprintf("line%d", st.Site%2) // two raising lines inside one closure
+			site += fmt.Sprintf("line%d", (st.Site/numSites)%2) // two raising lines inside one closure
 		}
 	}
 	x.ev(Event{K: "sig", Scope: fr.sc.id, Name: st.Kind, Class: class, Site: site, Where: fr.where, Msg: msg})
@@ -546,7 +546,7 @@ func site3(t *rapid.T, kind, msg string, n int) { doSignal(t, kind, msg, n) }
 //go:noinline
 func runAction(t *rapid.T, kind, msg string, n int) {
 	func() {
-		if kind == "panicString" && n%2 == 0 {
+		if kind == "panicString" && (n/numSites)%2 == 0 {
 			panic(msg)
 		}
 		if kind == "panicString" {
@@ -559,7 +559,7 @@ func runAction(t *rapid.T, kind, msg string, n int) {
 //go:noinline
 func maybeValue(t *rapid.T, kind, msg string, n int) {
 	func() {
-		if kind == "panicError" && n%2 == 0 {
+		if kind == "panicError" && (n/numSites)%2 == 0 {
 			panic(&panicErr{msg})
 		}
 		if kind == "panicError" {
